@@ -644,13 +644,23 @@ class Emitter:
             obj = self.e(base) if me.get('isArrow') else self.addr(base)
             # receiver static type decides the callee class (R3); methods inherited from a base
             # are named after the class that declares them
-            name = self.namer.cname(md); self.calls.add(name)
+            name = self.namer.cname(md); had = name in self.calls; self.calls.add(name)
             owner = md.get('_cls')
             bt = self.class_of(base['type'])
             if bt and owner and bt != owner:
                 self.fire('R12 derived->base receiver cast')
                 obj = '((struct %s *)(%s))' % (owner, obj)
             if md.get('virtual'): self.fire('R3v virtual call -> static-type contract')
+            # opt-in per proof (@define VERIF_VIRTUAL_DISPATCH; C17 plugin chains): a virtual call through a pointer
+            # goes to <name>__virt, the hand-written dispatcher over the overrides that the proof supplies (DESIGN R3)
+            if me.get('isArrow') and '-DVERIF_VIRTUAL_DISPATCH' in getattr(self.tu, 'cmd', []):
+                virt, d0, hops = False, md, 0
+                while d0 is not None and hops < 8:      # 'virtual' sits on the in-class declaration, not on the out-of-line definition
+                    if d0.get('virtual'): virt = True; break
+                    d0 = self.tu.byid.get(d0.get('previousDecl')); hops += 1
+                if virt:
+                    if not had: self.calls.discard(name)
+                    name += '__virt'; self.calls.add(name); self.fire('R3d virtual call -> proof-supplied dispatcher')
             self.fire('R3 member call -> free function')
             ps = split_params(md['type']['qualType'])
             if is_static_method(self.tu, md): return name, self.bind_args(md, ps, c[1:])
